@@ -187,7 +187,7 @@ class Check:
         os.makedirs(meta, exist_ok=True)
         out_path = os.path.join(self.work, "tlc%d_%s.out" % (self._ntlc, module))
         if workers is None:
-            workers = 1 if mode == "trace" else (12 if self.tier == "thorough" else 8)
+            workers = 1 if mode == "trace" else int(os.environ.get("VERIF_TLC_WORKERS", 12 if self.tier == "thorough" else 8))
         jopts = ["-XX:+UseParallelGC", "-Xss1g"]
         if xmx:
             jopts.append("-Xmx" + xmx)
